@@ -865,16 +865,24 @@ func ruleStreamTypeGuard(c *Ctx, r *Report) {
 					}
 				}
 			}
-			if guarded {
+			switch {
+			case guarded:
 				r.ok(rule, key, c.at(in), desc, fmt.Sprintf("reached only under streamType == %d (%s unit)", want[u], u), true)
-			} else {
+			case callee.Name() == "UnreadRune" && c.allGuarded(c.factsAt, "ReadRune", want["rune"]):
+				// bufio refuses UnreadRune unless its last operation was ReadRune, and every ReadRune on the
+				// underlying reader is itself reached only on text streams
+				r.ok(rule, key, c.at(in), desc, "no guard of its own, but the buffered reader refuses UnreadRune unless its last operation was a ReadRune, and every ReadRune is guarded", true)
+			case callee.Name() == "UnreadByte" && c.unreadOnlyAfterSuccessfulRead(top, u):
+				// an un-read needs no guard of its own if the library calls it only after the matching read has
+				// succeeded on the same stream: that read has fixed the stream type
+				r.ok(rule, key, c.at(in), desc, "no guard of its own, but every call of "+top.Name()+" in the library follows a successful read of the same unit on the same stream (which is guarded)", true)
+			default:
 				r.bad(rule, base, c.at(in), desc, "no branch fact fixes the stream type before this "+u+"-unit operation: on a stream of the other type the cursor moves in the wrong unit")
 			}
 		})
 	}
 	r.analysed(rule, fmt.Sprintf("%d unit-specific operations on the underlying reader inside Stream", n))
 }
-
 
 // errStateReach searches the paths from `start` that avoid `avoid`, tracking what the branches taken say
 // about errVal (nil / non-nil), and returns the first `target` instruction reached on a path on which
@@ -960,7 +968,6 @@ func errStateReachX(start ssa.Instruction, errVal ssa.Value, target, avoid func(
 	return found
 }
 
-
 // directUnreadSites returns the instructions of fn at which one of the un-read methods runs: direct calls,
 // and calls of a local closure (called in place, never deferred, stored elsewhere or passed on) whose body
 // makes the un-read. `bad` is an un-read that runs at some other time: deferred, or inside a closure that
@@ -1044,4 +1051,109 @@ func (c *Ctx) directUnreadSites(fn *ssa.Function, isUnread func(*ssa.Function) b
 		}
 	}
 	return
+}
+
+// unreadOnlyAfterSuccessfulRead: every library call of the Stream method `unread` lies under the fact
+// err == nil of a call, in the same function and on the same stream, of the Stream read method of that unit.
+func (c *Ctx) unreadOnlyAfterSuccessfulRead(unread *ssa.Function, unit string) bool {
+	readName := map[string]string{"byte": "ReadByte", "rune": "ReadRune"}[unit]
+	read := c.method("Stream", readName)
+	if read == nil {
+		return false
+	}
+	sites := c.callSitesOf(unread)
+	if len(sites) == 0 {
+		return false
+	}
+	for _, site := range sites {
+		fn := site.Parent()
+		ok := false
+		eachInstr(fn, func(in ssa.Instruction) {
+			rc, isCall := in.(*ssa.Call)
+			if !isCall || rc.Call.StaticCallee() != read || !c.sameStreamValue(rc.Call.Args[0], site.Common().Args[0]) {
+				return
+			}
+			var errVal ssa.Value
+			if refs := rc.Referrers(); refs != nil {
+				for _, ref := range *refs {
+					if ex, isEx := ref.(*ssa.Extract); isEx && isErrorType(ex.Type()) {
+						errVal = ex
+					}
+				}
+			}
+			if errVal == nil {
+				return
+			}
+			for f := range c.factsAt(site.Block()) {
+				bo, isBo := f.cond.(*ssa.BinOp)
+				if !isBo || (bo.Op != token.EQL && bo.Op != token.NEQ) {
+					continue
+				}
+				var other ssa.Value
+				switch {
+				case bo.X == errVal:
+					other = bo.Y
+				case bo.Y == errVal:
+					other = bo.X
+				default:
+					continue
+				}
+				if k, isConst := other.(*ssa.Const); isConst && k.Value == nil && (bo.Op == token.EQL) == f.pol {
+					ok = true
+				}
+			}
+		})
+		if !ok {
+			return false
+		}
+	}
+	return true
+}
+
+
+// allGuarded: every call of bufio.Reader.<op> inside methods of Stream is reached only under
+// streamType == want.
+func (c *Ctx) allGuarded(factsAt func(*ssa.BasicBlock) map[fact]bool, op string, want int64) bool {
+	n, good := 0, true
+	for _, fn := range c.LibFuncs() {
+		top := topFunc(fn)
+		if top.Signature.Recv() == nil || !isEngNamed(deref(top.Signature.Recv().Type()), "Stream") {
+			continue
+		}
+		eachInstr(fn, func(in ssa.Instruction) {
+			ci, ok := in.(ssa.CallInstruction)
+			if !ok {
+				return
+			}
+			callee := ci.Common().StaticCallee()
+			if callee == nil || callee.Name() != op || callee.Signature.Recv() == nil || !isNamedIn(deref(callee.Signature.Recv().Type()), "bufio", "Reader") {
+				return
+			}
+			n++
+			g := false
+			for f := range factsAt(in.Block()) {
+				bo, ok := f.cond.(*ssa.BinOp)
+				if !ok || (bo.Op != token.EQL && bo.Op != token.NEQ) || (bo.Op == token.EQL) != f.pol {
+					continue
+				}
+				for _, pair := range [][2]ssa.Value{{bo.X, bo.Y}, {bo.Y, bo.X}} {
+					ld, ok := pair[0].(*ssa.UnOp)
+					if !ok || ld.Op != token.MUL {
+						continue
+					}
+					fa, ok := ld.X.(*ssa.FieldAddr)
+					if !ok || fieldName(fa) != "streamType" {
+						continue
+					}
+					if k, ok := constInt(pair[1]); ok && k == want {
+						g = true
+					}
+				}
+			}
+			if !g {
+				good = false
+			}
+		})
+	}
+	return n > 0 && good
 }
